@@ -685,7 +685,11 @@ def _closeresult_rule(chk, prog):
     chk.analysed(cb)
     local = len(close.calls("make_close_result"))
     if local < 2:
-        raise AnalysisBroken("cfun_channel_close: same-thread close results not recognised (%d)" % local)
+        # the same-thread path no longer builds [:close chan] for both kinds of waiter: there is nothing to hold the
+        # cross-thread path against (what the same-thread close must do is C06 / C07's clause, not this one)
+        chk.note("C08-CLOSERESULT: cfun_channel_close builds %d close results itself; cross-thread agreement not decidable" % local)
+        chk.floor(rule, 0, 0)
+        return
     chk.instance(rule)
     remote = cb.calls("make_close_result")
     if remote:
